@@ -424,13 +424,26 @@ def tables(ctx, obs, rule='TAB'):
     f = prog.func(W + 'calc_rdm_unbalanced')
     want = {'euclidean': 1, 'correlation': 2, 'mahalanobis': 3, 'crossnobis': 3, 'poisson': 4, 'poisson_cv': 4}
     for k, v in want.items():
-        obs.check(a.get(k) == v, rule, W + 'calc_rdm_unbalanced', f'method {k!r} maps to kernel index {v} (as documented in the pyx)',
-                  f'{k!r} -> {a.get(k)}', '', where(prog, f, f.node))
-    obs.check(a == b, rule, W + 'calc_one_similarity', 'both wrappers use the same method -> index table', f'{a} vs {b}', '',
-              where(prog, prog.func(W + 'calc_one_similarity'), prog.func(W + 'calc_one_similarity').node))
-    obs.check(wmaps[W + 'calc_rdm_unbalanced'] == wmaps[W + 'calc_one_similarity'] and wmaps[W + 'calc_rdm_unbalanced'].get('equal') == 0,
-              rule, W + 'calc_one_similarity', 'both wrappers use the same weighting -> index table (equal -> 0, number -> 1)',
-              f'{wmaps}', '', where(prog, f, f.node))
+        con_ = f'method {k!r} maps to kernel index {v} (as documented in the pyx)'
+        if a.get(k) is None:
+            # no `if method == ..: idx = <int>` arm for this method: the table is kept elsewhere (an enum, a dict) - not decided
+            obs.unk(rule, W + 'calc_rdm_unbalanced', con_, f'no arm assigning an integer for {k!r} found in calc_rdm_unbalanced', where(prog, f, f.node))
+        else:
+            obs.check(a.get(k) == v, rule, W + 'calc_rdm_unbalanced', con_, f'{k!r} -> {a.get(k)}', '', where(prog, f, f.node))
+    f1 = prog.func(W + 'calc_one_similarity')
+    if not a or not b:
+        obs.unk(rule, W + 'calc_one_similarity', 'both wrappers use the same method -> index table', f'{a} vs {b}: a table is not written as a chain',
+                where(prog, f1, f1.node))
+    else:
+        obs.check(a == b, rule, W + 'calc_one_similarity', 'both wrappers use the same method -> index table', f'{a} vs {b}', '',
+                  where(prog, f1, f1.node))
+    wa, wb = wmaps[W + 'calc_rdm_unbalanced'], wmaps[W + 'calc_one_similarity']
+    if not wa or not wb:
+        obs.unk(rule, W + 'calc_one_similarity', 'both wrappers use the same weighting -> index table (equal -> 0, number -> 1)',
+                f'{wmaps}: a table is not written as a chain', where(prog, f, f.node))
+    else:
+        obs.check(wa == wb and wa.get('equal') == 0, rule, W + 'calc_one_similarity',
+                  'both wrappers use the same weighting -> index table (equal -> 0, number -> 1)', f'{wmaps}', '', where(prog, f, f.node))
     from .c01 import method_dispatch
     method_dispatch(ctx, obs, 'rdm.calc.calc_rdm', {})   # anchor check only (raises if calc_rdm vanished)
 
@@ -502,11 +515,20 @@ def wrapper(ctx, obs, rule='FWD'):
         def consts(e):
             alts = e.args if isinstance(e, ast.Call) and _leaf(e.func) == 'PHI' else [e]
             return sorted(a.value for a in alts if isinstance(a, ast.Constant))
-        obs.check(consts(e4) == [1, 2, 3, 4], rule, q, 'slot method_idx receives the method index (1..4)',
-                  f'slot 4 receives `{ast.unparse(e4)[:60]}`', '', where(prog, f, c))
-        obs.check(consts(e8) == [0, 1] and consts(e9) == [0, 1] and wi != cvn, rule, q,
-                  'slots weighting and crossval receive the weighting index and the crossval flag (two different 0/1 locals)',
-                  f'slot 8 `{ast.unparse(e8)[:40]}`, slot 9 `{ast.unparse(e9)[:40]}`', '', where(prog, f, c))
+        def all_const(e):
+            alts = e.args if isinstance(e, ast.Call) and _leaf(e.func) == 'PHI' else [e]
+            return all(isinstance(a, ast.Constant) for a in alts)
+        con4 = 'slot method_idx receives the method index (1..4)'
+        if not all_const(e4):
+            obs.unk(rule, q, con4, f'slot 4 receives `{ast.unparse(e4)[:60]}`: not a choice of integer literals (a table / enum look-up)', where(prog, f, c))
+        else:
+            obs.check(consts(e4) == [1, 2, 3, 4], rule, q, con4, f'slot 4 receives `{ast.unparse(e4)[:60]}`', '', where(prog, f, c))
+        con89 = 'slots weighting and crossval receive the weighting index and the crossval flag (two different 0/1 locals)'
+        if not (all_const(e8) and all_const(e9)):
+            obs.unk(rule, q, con89, f'slot 8 `{ast.unparse(e8)[:40]}`, slot 9 `{ast.unparse(e9)[:40]}`: not choices of integer literals', where(prog, f, c))
+        else:
+            obs.check(consts(e8) == [0, 1] and consts(e9) == [0, 1] and wi != cvn, rule, q, con89,
+                      f'slot 8 `{ast.unparse(e8)[:40]}`, slot 9 `{ast.unparse(e9)[:40]}`', '', where(prog, f, c))
         # which of the two 0/1 locals is the crossval flag: the one assigned next to the fold codes
         cv_local = None
         for g in ast.walk(f.node):
